@@ -2114,7 +2114,9 @@ def read_lines(path_or_source, *, include=False, include_dirs=None):
     current_dirs.append(base_path)
 
     lines = []
-    for i, raw_line in enumerate(source.splitlines(), start=1):
+    # only real newlines end a line: str.splitlines() would also break at
+    # form feeds, NEL, U+2028 and friends inside string literals
+    for i, raw_line in enumerate(re.split(r'\r\n|\r|\n', source), start=1):
         # skip empty lines
         if len(raw_line.strip()) == 0:
             continue
